@@ -1,6 +1,6 @@
 (* C06 — every name resolves to the same variable after lowering of scopes. *)
 From Coq Require Import String List ZArith Bool.
-From OL Require Import PyAst Namespace Lower Scope.
+From OL Require Import PyAst Namespace Lower Scope ScopeTree.
 Import ListNotations.
 
 (* Python's rule (language reference 4.2.2) is [ref_walk]: the nearest enclosing FUNCTION scope that binds the name,
@@ -20,6 +20,14 @@ Theorem C06_nearest_binder_is_found : forall stack x j,
   (exists p, find_origin stack x = inl (j, p)) \/ find_origin stack x = inr EKey.
 Proof. exact nearest_binder_is_found. Qed.
 Print Assumptions C06_nearest_binder_is_found.
+
+(* for the namespace tree of EVERY symbol table on which generate_nsp succeeds: every outer-map entry x -> o of every
+   namespace names a FUNCTION on its chain of enclosing namespaces that keeps x in its dictionary - no access can reach
+   into a dictionary the owning function does not fill (by induction over the table tree, through both passes) *)
+Theorem C06_dict_storage_consistent : forall lt root tree,
+  generate_nsp lt root = inl tree -> forallb dict_ok (all_nsp tree) = true.
+Proof. exact generate_nsp_dict_ok. Qed.
+Print Assumptions C06_dict_storage_consistent.
 
 (* what get_load_name / get_assign / get_load_assigned emit, in every namespace and expression scope, is the rendering of
    an access decision *)
